@@ -298,6 +298,10 @@ def decodeOp (j : Json) : M (Op Rat GRat) := do
       let dm ← dim
       let tbl ← (← jArr (← jField kw "cis")).mapM jGList
       pure (.proc (fun d => d.phase AR arangeR dm (fun j k => (tbl.getD j []).getD k default)) obj out)
+    | "autophase" => do
+      let dm ← dim
+      let tbl ← (← jArr (← jField kw "cis")).mapM jGList
+      pure (.proc (fun d => d.autophase AR arangeR dm (fun j k => (tbl.getD j []).getD k default)) obj out)
     | "phase_cycle" => do
       let dm ← dim; let rp ← jNatList (← jField kw "rp")
       pure (.proc (fun d => d.phaseCycle AR dm rp negIpow) obj out)
